@@ -240,10 +240,13 @@ class Repo:
     def script_key(self, cwd, argv0):
         return hashlib.sha256((cwd + "\0" + argv0).encode()).hexdigest()
 
-    def set_script(self, tpath, cmd, lines, argv0=None):
-        """Trace-mode behaviour of (target, command): list of protocol lines."""
+    def set_script(self, tpath, cmd, lines, argv0=None, nth=None):
+        """Trace-mode behaviour of (target, command): list of protocol lines (nth: only for the n-th
+        invocation of that executable, counted from 1)."""
         argv0 = argv0 or os.path.join(self.dir, tpath, "monorail/cmd", cmd + ".sh")
         key = self.script_key(os.path.join(self.dir, tpath), argv0)
+        if nth:
+            key = "%s.%d" % (key, nth)
         with open(os.path.join(self.script_dir, key), "w") as f:
             f.write("\n".join(lines) + "\n")
 
